@@ -249,11 +249,24 @@ class Ctx:
 
 # ---------------------------------------------------------------- known findings
 def load_known():
-    path = os.path.join(VERIF, "known_findings.json")
-    try:
-        return json.load(open(path))
-    except OSError:
-        return []
+    """known_findings.json (committed, merged) plus the per-property fragments in
+    known_findings.d/ it is merged from (so a fragment that has not been merged
+    yet is honoured as well); never written at run time."""
+    import glob
+    out, seen = [], set()
+    paths = [os.path.join(VERIF, "known_findings.json")] + \
+        sorted(glob.glob(os.path.join(VERIF, "known_findings.d", "*.json")))
+    for path in paths:
+        try:
+            ents = json.load(open(path))
+        except (OSError, ValueError):
+            continue
+        for e in ents:
+            key = json.dumps(e, sort_keys=True)
+            if key not in seen:
+                seen.add(key)
+                out.append(e)
+    return out
 
 
 def match_known(sig, known):
